@@ -221,7 +221,9 @@ class Sym:
 
     # -- numpy object-dtype ufunc hooks -------------------------------------------
     def sqrt(self):
-        return wrap(sp.sqrt(self.e))
+        if self.e.is_number:
+            return wrap(sp.sqrt(self.e))
+        return wrap(sp.sqrt(sp.factor_terms(sp.expand(self.e))))
 
     def cbrt(self):
         return wrap(sp.cbrt(self.e))
